@@ -492,6 +492,58 @@ impl Hash for K {
         self.key.hash(h)
     }
 }
+/// zero-sized payloads: the value has no bytes, its trait impls still have behaviour
+#[derive(Clone, Copy)]
+struct Zt;
+impl Debug for Zt {
+    fn fmt(&self, f: &mut std::fmt::Formatter<'_>) -> std::fmt::Result {
+        f.pad("Zt!")
+    }
+}
+impl PartialEq for Zt {
+    fn eq(&self, _: &Zt) -> bool {
+        true
+    }
+}
+impl Eq for Zt {}
+impl PartialOrd for Zt {
+    fn partial_cmp(&self, _: &Zt) -> Option<Ordering> {
+        Some(Ordering::Equal)
+    }
+}
+impl Ord for Zt {
+    fn cmp(&self, _: &Zt) -> Ordering {
+        Ordering::Equal
+    }
+}
+impl Hash for Zt {
+    fn hash<H: Hasher>(&self, h: &mut H) {
+        h.write_u8(7)
+    }
+}
+/// zero-sized and equal to nothing, itself included (the NaN of unit structs)
+#[derive(Clone, Copy)]
+struct Zn;
+impl Debug for Zn {
+    fn fmt(&self, f: &mut std::fmt::Formatter<'_>) -> std::fmt::Result {
+        f.pad("Zn?")
+    }
+}
+impl PartialEq for Zn {
+    fn eq(&self, _: &Zn) -> bool {
+        false
+    }
+}
+impl PartialOrd for Zn {
+    fn partial_cmp(&self, _: &Zn) -> Option<Ordering> {
+        None
+    }
+}
+fn zero_sized(g: &mut Grid) {
+    scalar::<()>(g, "()(zero-sized)", &[()], true, |a, b, r| { r_pord(a, b, r); r_ord(a, b, r); r_hash(a, b, r) }, |a, b, r| { r_pord(a, b, r); r_ord(a, b, r); r_hash(a, b, r) });
+    scalar::<Zt>(g, "Zt(zero-sized, Debug/Hash of its own)", &[Zt], true, |a, b, r| { r_pord(a, b, r); r_ord(a, b, r); r_hash(a, b, r) }, |a, b, r| { r_pord(a, b, r); r_ord(a, b, r); r_hash(a, b, r) });
+    scalar::<Zn>(g, "Zn(zero-sized, equal to nothing)", &[Zn], false, |a, b, r| r_pord(a, b, r), |a, b, r| r_pord(a, b, r));
+}
 /// The methods that `Ord`, `Hash` (and `PartialEq`, covered above) PROVIDE — max, min, clamp,
 /// hash_slice — answer through a handle what they answer on the values, including which of two
 /// equal-ranking operands is returned and whether an inverted clamp range panics.
@@ -587,6 +639,7 @@ pub fn run(tier: &str, seed: u64) -> Vec<Grid> {
     header_slices(&mut g, thorough);
     maps(&mut g);
     provided_methods(&mut g);
+    zero_sized(&mut g);
     let mut s = Grid::new("c14.sampled", "SAMPLING (labelled, not exhaustive): VERIF_SEED-driven larger header/slice values through ThinArc; excluded from the exhaustive claim");
     s.exhaustive = false;
     sampled(&mut s, seed, if thorough { 20000 } else { 2000 });
